@@ -14,7 +14,7 @@
    below), the geometric correctness of ray casting (holes_assigned) and the composition
    build_polygon_recovers. *)
 From Coq Require Import ZArith List Bool Permutation Lia.
-From Verif Require Import Geo.Model Geo.JoinProofs Geo.Conserve Geo.Closes Geo.Cut Geo.Orient Geo.Sources Geo.Holes.
+From Verif Require Import Geo.Model Geo.JoinProofs Geo.Conserve Geo.Closes Geo.Cut Geo.Orient Geo.Sources Geo.Holes Geo.Annotate.
 Import ListNotations.
 Open Scope Z_scope.
 
@@ -103,17 +103,35 @@ Proof. exact ms_area2_eq. Qed.
 Theorem C16_reverse_negates : forall l, shoelace (rev l) = - shoelace l.
 Proof. exact shoelace_rev. Qed.
 
-(* 5. orientation_annotation_truthful.  FULL STATEMENT (not proved): after annotate_orientation
-      every way member carries the direction its way runs around its ground-truth ring.
-      PROVED (partial): annotateOrientation on a closed chain of non-zero area writes, for each of
-      its segments, the direction of the ORIGINAL way (chain direction, negated iff Reversed),
-      and touches no other member.  MISSING: the composition over all chains and 3b. *)
-Theorem C16_orientation_annotation_truthful_partial : forall o ms os s,
+(* 5. orientation_annotation_truthful.  FULL STATEMENT (not proved): for every valid scene and
+      cut, after annotate_orientation every way member carries the direction its way runs
+      around its GROUND-TRUTH ring.
+      PROVED (partial): after annotate_orientation, every member whose way lies in a closed chain
+      of non-zero area carries the direction in which its original way runs around that chain
+      (chain direction, negated iff join/Group reversed the way); members in no chain are left
+      alone (frame).  Closedness of every chain is theorem 3b for every cut.
+      MISSING: that the chain IS the ground-truth ring (3b full), and the derivation of the
+      hypotheses "member indices distinct" (Group numbers members by position) and "non-zero
+      area" from the scene. *)
+Theorem C16_orientation_annotation_truthful_partial : forall members ways outers inners os t,
+  join (grp_outer (group members ways)) = JoinOk outers ->
+  join (grp_inner (group members ways)) = JoinOk inners ->
+  annotate_orientation members ways = Some (os, t) ->
+  NoDup (map idx (concat (outers ++ inners))) ->
+  (forall ms, In ms (outers ++ inners) -> line_closed (ms_line ms) /\ shoelace (ms_line ms) <> 0) ->
+  (forall ms s, In ms (outers ++ inners) -> In s ms -> (idx s < length members)%nat) ->
+  forall ms s, In ms (outers ++ inners) -> In s ms ->
+    nth (idx s) os 0 = way_direction (sign (shoelace (ms_line ms))) s.
+Proof. exact annotate_orientation_truthful. Qed.
+Print Assumptions C16_orientation_annotation_truthful_partial.
+
+(* one chain *)
+Theorem C16_annotate_chain : forall o ms os s,
   (o = 1 \/ o = -1) -> line_closed (ms_line ms) -> shoelace (ms_line ms) <> 0 ->
   NoDup (map idx ms) -> In s ms -> (idx s < length os)%nat ->
   nth (idx s) (annotate_ms o os ms) 0 = way_direction (sign (shoelace (ms_line ms))) s.
 Proof. exact annotate_ms_truthful. Qed.
-Print Assumptions C16_orientation_annotation_truthful_partial.
+Print Assumptions C16_annotate_chain.
 
 Theorem C16_orientation_annotation_frame : forall o ms os i,
   (forall s, In s ms -> idx s <> i) -> nth i (annotate_ms o os ms) 0 = nth i os 0.
@@ -231,3 +249,13 @@ Proof.
     + congruence.
     + destruct j; discriminate.
 Qed.
+
+(* a complete annotate_orientation run on the cut square: ways 1,2,3 = the three segments *)
+Definition ex_ways : list way :=
+  [mkWay 1 [mkWN 1 0 1 5; mkWN 2 0 5 5]; mkWay 2 [mkWN 1 0 1 5; mkWN 3 0 1 1];
+   mkWay 3 [mkWN 2 0 5 5; mkWN 4 0 5 1; mkWN 3 0 1 1]].
+Definition ex_members : list member :=
+  [mkMem true 1 Outer 0 []; mkMem true 2 Outer 0 []; mkMem true 3 Outer 0 []].
+Example ex_annotate_orientation :
+  annotate_orientation ex_members ex_ways = Some ([-1; 1; -1], false).
+Proof. vm_compute. reflexivity. Qed.
